@@ -300,6 +300,8 @@ func report(rr *RunResult, verbose bool, keep string) int {
 }
 
 func main() {
+	// represent type aliases by the types they denote (heap families are keyed by type names)
+	os.Setenv("GODEBUG", "gotypesalias=0")
 	if len(os.Args) < 2 {
 		fmt.Fprintln(os.Stderr, "usage: govc verify|check ...")
 		os.Exit(2)
